@@ -167,6 +167,12 @@ def catalogue():
     add('prod', [U((3,))], lambda algopy, x: algopy.prod(x), group='shape', npfn=np.prod)
     add('tile', [U((2,))], lambda algopy, x: algopy.tile(x, 2), group='shape', npfn=lambda a: np.tile(a, 2))
     add('diag(vec)', [U((2,))], lambda algopy, x: algopy.diag(x), group='shape', npfn=np.diag)
+    add('diag(vec,k=-1)', [U((3,))], lambda algopy, x: algopy.diag(x, -1), group='shape', npfn=lambda a: np.diag(a, -1))
+    add('diag(vec,k=2)', [U((2,))], lambda algopy, x: algopy.diag(x, 2), group='shape', npfn=lambda a: np.diag(a, 2))
+    add('diag(mat,k=-1)', [U((3, 3))], lambda algopy, x: algopy.diag(x, -1), group='shape', npfn=lambda a: np.diag(a, -1))
+    add('tile(vec,(3,1))', [U((2,))], lambda algopy, x: algopy.tile(x, (3, 1)), group='shape', npfn=lambda a: np.tile(a, (3, 1)))
+    add('tile(vec,(2,2))', [U((3,))], lambda algopy, x: algopy.tile(x, (2, 2)), group='shape', npfn=lambda a: np.tile(a, (2, 2)))
+    add('tile(mat,(2,1,2))', [U((2, 2))], lambda algopy, x: algopy.tile(x, (2, 1, 2)), group='shape', npfn=lambda a: np.tile(a, (2, 1, 2)))
     add('diag(mat)', [U((2, 2))], lambda algopy, x: algopy.diag(x), group='shape', npfn=np.diag)
     add('trace', [U((2, 2))], lambda algopy, x: algopy.trace(x), group='shape', npfn=np.trace)
     add('tril', [U((2, 2))], lambda algopy, x: algopy.tril(x), group='shape', npfn=np.tril)
@@ -240,6 +246,25 @@ def catalogue():
         add('UTPM.%s(x, y)' % nm, [U(), U()], (lambda nm: lambda algopy, x, y: getattr(algopy.UTPM, nm)(x, y))(nm), group='arith', npfn=f)
     add('UTPM.div(x, y)', [U(), U(dom='nonzero')], lambda algopy, x, y: algopy.UTPM.div(x, y), group='arith', npfn=np.divide)
     add('det', [U((2, 2))], lambda algopy, x: algopy.det(x), group='linalg', npfn=np.linalg.det, tags=['lu'])
+    def _set(idx):
+        def f(algopy, x, v):
+            y = x.copy()
+            y[idx] = v
+            return y
+        return f
+
+    def _npset(idx):
+        def f(a, v):
+            b = np.array(a, copy=True)
+            b[idx] = v
+            return b
+        return f
+    # item assignment (on a copy) through index lists and masks, constant and polynomial values; with P = 2
+    # directions and 2 selected entries the direction axis and the index axis have the same length
+    add('y[[0,2]] = ndarray', [U((3,)), N((2,))], _set([0, 2]), group='index', npfn=_npset([0, 2]))
+    add('y[[2,0]] = utpm', [U((3,)), U((2,))], _set([2, 0]), group='index', npfn=_npset([2, 0]))
+    add('y[mask] = ndarray', [U((3,)), N((2,))], _set(np.array([True, False, True])), group='index', npfn=_npset(np.array([True, False, True])))
+    add('y[1:] = ndarray', [U((3,)), N((2,))], _set(slice(1, None)), group='index', npfn=_npset(slice(1, None)))
     add('inv', [U((2, 2))], lambda algopy, x: algopy.inv(x), group='linalg', npfn=np.linalg.inv)
     add('solve', [U((2, 2)), U((2, 1))], lambda algopy, a, b: algopy.solve(a, b), group='linalg', npfn=np.linalg.solve)
     add('solve(ndarray,utpm)', [N((2, 2)), U((2, 1))], lambda algopy, a, b: algopy.solve(a, b), group='linalg', npfn=np.linalg.solve)
